@@ -150,13 +150,13 @@ class Task:
     """
     def __init__(s, tid, unit, enforce, contract_headers, vars, call, replace=(), defs=None, reach=(), bounded=None,
                  timeout=900, mem_gb=8, object_bits=10, extra_cbmc=(), harness_pre="", harness_post="", native=None,
-                 contract=None, loop_contracts=False, group=None, notes=None, stubs=(), nothrow=True, solver="cadical"):
+                 contract=None, loop_contracts=False, group=None, notes=None, stubs=(), nothrow=True, solver="cadical", split_post=False):
         s.id, s.unit, s.enforce, s.headers, s.vars, s.call = tid, unit, enforce, list(contract_headers), list(vars), call
         s.replace = list(replace); s.defs = dict(defs or {}); s.reach = list(reach); s.bounded = bounded
         s.timeout, s.mem_gb, s.object_bits, s.extra_cbmc = timeout, mem_gb, object_bits, list(extra_cbmc)
         s.harness_pre, s.harness_post, s.native, s.contract = harness_pre, harness_post, native, contract
         s.loop_contracts = loop_contracts; s.group = group or tid; s.notes = notes; s.stubs = list(stubs); s.nothrow = nothrow
-        s.solver = solver
+        s.solver = solver; s.split_post = split_post
         s.dir = None
 
     def mangled(s, alias):
@@ -232,16 +232,48 @@ class Task:
             if s.bounded and s.bounded.get("unwind"): cb += ["--unwind", str(s.bounded["unwind"]), "--unwinding-assertions"]
             if s.bounded and s.bounded.get("unwindset"): cb += ["--unwindset", s.bounded["unwindset"], "--unwinding-assertions"]
             res["checker_cmd"] = " ".join(cmd) + " && " + " ".join(cb)
-            rc, o, e, t = sh(cb, cwd=d, timeout=s.timeout, mem_gb=s.mem_gb)
-            res["time"]["cbmc"] = round(t, 2)
-            open(os.path.join(d, "cbmc.json"), "w").write(o); open(os.path.join(d, "cbmc.err"), "w").write(e)
-            if e == "TIMEOUT": res["why"] = "cbmc timeout after %ds" % s.timeout; return res
-            try: js = json.loads(o)
-            except Exception: res["why"] = "cbmc output not JSON (rc=%d): %s" % (rc, (o + e)[-800:]); return res
-            props = None; msgs = []
-            for x in js:
-                if "result" in x: props = x["result"]
-                if "messageText" in x: msgs.append(x["messageText"])
+            if s.split_post:
+                # every postcondition clause is a separate solver query (run in parallel); all other obligations
+                # (frame, memory safety, arithmetic UB, unwinding, vacuity guards) form one more query.
+                rc, o, e, t = sh(["cbmc", "task.i.gb", "--show-properties", "--json-ui"] + [x for x in cb[3:] if x not in ("--json-ui",)], cwd=d, timeout=600, mem_gb=s.mem_gb)
+                try:
+                    allp = []
+                    for x in json.loads(o):
+                        for pr in x.get("properties", []): allp.append(pr["name"])
+                except Exception: res["why"] = "cannot list properties: " + (o + e)[-500:]; return res
+                posts = [p for p in allp if ".postcondition." in p]; rest = [p for p in allp if ".postcondition." not in p]
+                groups = [[p] for p in posts] + ([rest] if rest else [])
+                t0 = time.time()
+                def run_group(g):
+                    c2 = list(cb)
+                    for p in g: c2 += ["--property", p]
+                    return sh(c2, cwd=d, timeout=s.timeout, mem_gb=s.mem_gb)
+                with cf.ThreadPoolExecutor(max_workers=min(len(groups), 8)) as ex2: outs = list(ex2.map(run_group, groups))
+                res["time"]["cbmc"] = round(time.time() - t0, 2); res["time"]["cbmc_cpu_sum"] = round(sum(x[3] for x in outs), 2)
+                props = []; msgs = []; js = None
+                for gi, (rc2, o2, e2, t2) in enumerate(outs):
+                    open(os.path.join(d, "cbmc.%d.json" % gi), "w").write(o2)
+                    if e2 == "TIMEOUT": res["why"] = "cbmc timeout after %ds on %s" % (s.timeout, groups[gi][0]); return res
+                    try: j2 = json.loads(o2)
+                    except Exception: res["why"] = "cbmc output not JSON: " + (o2 + e2)[-600:]; return res
+                    pp = None
+                    for x in j2:
+                        if "result" in x: pp = x["result"]
+                        if "messageText" in x: msgs.append(x["messageText"])
+                    if pp is None: res["why"] = "cbmc produced no result list for %s: %s" % (groups[gi][0], "\n".join(msgs)[-600:]); return res
+                    want = set(groups[gi]); props += [p for p in pp if p["property"] in want]
+                rc = 0; o = ""; e = ""
+            else:
+                rc, o, e, t = sh(cb, cwd=d, timeout=s.timeout, mem_gb=s.mem_gb)
+                res["time"]["cbmc"] = round(t, 2)
+                open(os.path.join(d, "cbmc.json"), "w").write(o); open(os.path.join(d, "cbmc.err"), "w").write(e)
+                if e == "TIMEOUT": res["why"] = "cbmc timeout after %ds" % s.timeout; return res
+                try: js = json.loads(o)
+                except Exception: res["why"] = "cbmc output not JSON (rc=%d): %s" % (rc, (o + e)[-800:]); return res
+                props = None; msgs = []
+                for x in js:
+                    if "result" in x: props = x["result"]
+                    if "messageText" in x: msgs.append(x["messageText"])
             alltext = "\n".join(msgs)
             res["solver_s"] = sum(float(m) for m in re.findall(r'Runtime Solver: ([\d.e+-]+)s', alltext))
             if props is None: res["why"] = "cbmc produced no result list (rc=%d): %s" % (rc, alltext[-800:]); return res
